@@ -75,6 +75,29 @@ pub enum Stmt {
     Return(Option<Box<Stmt>>),
 }
 
+const L_ASSIGN: u8 = 0;
+const L_ITER: u8 = 11;
+const L_PREFIX: u8 = 12;
+const L_POSTFIX: u8 = 13;
+const L_PRIMARY: u8 = 14;
+
+/// level of an infix value operator in the documented table (higher binds tighter)
+fn bin_level(op: &str) -> u8 {
+    match op {
+        "||" => 1,
+        "&&" => 2,
+        "==" | "!=" | "<" | "<=" | ">" | ">=" => 3,
+        "|" => 4,
+        "^" => 5,
+        "&" => 6,
+        "<<" | ">>" => 7,
+        "+" | "-" => 8,
+        "*" | "/" | "%" => 9,
+        "**" => 10,
+        _ => 10,
+    }
+}
+
 /// how literals are printed
 #[derive(Clone, Copy, Debug, PartialEq)]
 pub enum Hide {
@@ -106,99 +129,108 @@ impl Printer {
         }
     }
 
-    fn lit(&self, ty: &str, text: String) -> String {
-        if self.hidden() { format!("(*(mut {ty} {text}))") } else { text }
+    /// a literal: plain (primary) or hidden behind a fresh cell (prefix level)
+    fn lit(&self, ty: &str, text: String) -> (String, u8) {
+        if self.hidden() { (format!("*(mut {ty} {text})"), L_PREFIX) } else { (text, L_PRIMARY) }
     }
 
+    /// prints with the minimal parentheses the documented precedence table requires
     pub fn expr(&self, e: &Expr) -> String {
+        self.at(e, 0)
+    }
+
+    fn at(&self, e: &Expr, min: u8) -> String {
+        let (s, level) = self.leveled(e);
+        if level < min { format!("({s})") } else { s }
+    }
+
+    fn leveled(&self, e: &Expr) -> (String, u8) {
         match e {
             Expr::Int(i) => {
                 if *i == i64::MIN {
-                    // not a literal: an expression over literals
-                    let a = self.lit("int", "9223372036854775807".into());
-                    format!("(-{a} - 1)")
+                    let (a, _) = self.lit("int", "9223372036854775807".into());
+                    (format!("(-{a} - 1)"), L_PRIMARY)
                 } else if *i < 0 {
-                    let a = self.lit("int", format!("{}", -(*i as i128)));
-                    format!("(-{a})")
+                    let (a, l) = self.lit("int", format!("{}", -(*i as i128)));
+                    (format!("-{}", if l < L_POSTFIX { format!("({a})") } else { a }), L_PREFIX)
                 } else {
                     self.lit("int", i.to_string())
                 }
             }
             Expr::Float(f) => {
                 if f.is_sign_negative() {
-                    let a = self.lit("float", format!("{:?}", -f));
-                    format!("(-{a})")
+                    let (a, l) = self.lit("float", format!("{:?}", -f));
+                    (format!("-{}", if l < L_POSTFIX { format!("({a})") } else { a }), L_PREFIX)
                 } else {
                     self.lit("float", format!("{f:?}"))
                 }
             }
             Expr::Bool(b) => self.lit("bool", b.to_string()),
             Expr::Str(s) => self.lit("string", crate::lit::escape_string(s)),
-            Expr::Void => "()".into(),
-            Expr::Var(n) => n.clone(),
-            Expr::Neg(x) => format!("(-{})", self.expr(x)),
-            Expr::Not(x) => format!("(!{})", self.expr(x)),
-            Expr::Deref(x) => format!("(*{})", self.expr(x)),
-            Expr::Bin(op, a, b) => format!("({} {op} {})", self.expr(a), self.expr(b)),
-            Expr::Array(xs) => format!("[{}]", self.list(xs)),
-            Expr::Repeat(v, n) => format!("[{}; {}]", self.expr(v), self.expr(n)),
-            Expr::Tuple(xs) => format!("({})", self.list(xs)),
-            Expr::Struct(fs) => format!(
-                "struct{{{}}}",
-                fs.iter().map(|(k, v)| format!("{k} := {}", self.expr(v))).collect::<Vec<_>>().join(", ")
+            Expr::Void => ("()".into(), L_PRIMARY),
+            Expr::Var(n) => (n.clone(), L_PRIMARY),
+            Expr::Neg(x) => (format!("-{}", self.at(x, L_POSTFIX)), L_PREFIX),
+            Expr::Not(x) => (format!("!{}", self.at(x, L_POSTFIX)), L_PREFIX),
+            Expr::Deref(x) => (format!("*{}", self.at(x, L_POSTFIX)), L_PREFIX),
+            Expr::Bin(op, a, b) => {
+                let l = bin_level(op);
+                (format!("{} {op} {}", self.at(a, l), self.at(b, l + 1)), l)
+            }
+            Expr::Array(xs) => (format!("[{}]", self.list(xs)), L_PRIMARY),
+            Expr::Repeat(v, n) => (format!("[{}; {}]", self.at(v, 0), self.at(n, 0)), L_PRIMARY),
+            Expr::Tuple(xs) => (format!("({})", self.list(xs)), L_PRIMARY),
+            Expr::Struct(fs) => (
+                format!("struct{{{}}}", fs.iter().map(|(k, v)| format!("{k} := {}", self.at(v, 0))).collect::<Vec<_>>().join(", ")),
+                L_PRIMARY,
             ),
-            Expr::Index(a, i) => format!("{}[{}]", self.postfix_operand(a), self.expr(i)),
+            Expr::Index(a, i) => (format!("{}[{}]", self.at(a, L_POSTFIX), self.at(i, 0)), L_POSTFIX),
             Expr::Slice(a, s, e, st) => {
-                let p = |x: &Option<Box<Expr>>| x.as_ref().map(|x| self.expr(x)).unwrap_or_default();
-                let base = self.postfix_operand(a);
-                if st.is_some() {
+                let p = |x: &Option<Box<Expr>>| x.as_ref().map(|x| self.at(x, 0)).unwrap_or_default();
+                let base = self.at(a, L_POSTFIX);
+                let text = if st.is_some() {
                     format!("{base}[{}:{}:{}]", p(s), p(e), p(st))
                 } else {
                     format!("{base}[{}:{}]", p(s), p(e))
-                }
+                };
+                (text, L_POSTFIX)
             }
-            Expr::TupleAt(a, k) => format!("{}.{k}", self.postfix_operand(a)),
-            Expr::Field(a, f) => format!("{}.{f}", self.postfix_operand(a)),
-            Expr::Call(f, args) => format!("{}({})", self.postfix_operand(f), self.list(args)),
-            Expr::Lambda(params, ret, body) => format!("({})", self.function(params, ret, body)),
-            Expr::MutNew(t, x) => format!("(mut {} {})", t.print(), self.paren(x)),
-            Expr::Assign(op, t, v) => format!("({} {op} {})", self.expr(t), self.expr(v)),
-            Expr::Iter(a) => format!("({}~)", self.paren(a)),
-            Expr::Map(it, f) => format!("({} @ {})", self.paren(it), self.paren(f)),
-            Expr::Filter(it, f) => format!("({} ? {})", self.paren(it), self.paren(f)),
-            Expr::TypeFilter(it, t) => format!("({} ? {})", self.paren(it), t.print()),
-            Expr::Partition(it, f) => format!("({} \\ {})", self.paren(it), self.paren(f)),
+            Expr::TupleAt(a, k) => (format!("{}.{k}", self.at(a, L_POSTFIX)), L_POSTFIX),
+            Expr::Field(a, f) => (format!("{}.{f}", self.at(a, L_POSTFIX)), L_POSTFIX),
+            Expr::Call(f, args) => (format!("{}({})", self.at(f, L_POSTFIX), self.list(args)), L_POSTFIX),
+            // a function literal in parentheses is always an expression, never a declaration
+            Expr::Lambda(params, ret, body) => (format!("({})", self.function(params, ret, body)), L_PRIMARY),
+            // `mut T e` takes the whole following expression: it is kept inside parentheses
+            Expr::MutNew(t, x) => (format!("(mut {} {})", t.print(), self.at(x, 0)), L_PRIMARY),
+            Expr::Assign(op, t, v) => (format!("{} {op} {}", self.at(t, L_ASSIGN + 1), self.at(v, L_ASSIGN)), L_ASSIGN),
+            Expr::Iter(a) => (format!("{}~", self.at(a, L_ITER)), L_ITER),
+            Expr::Map(it, f) => (format!("{} @ {}", self.at(it, L_ITER), self.at(f, L_PREFIX)), L_ITER),
+            Expr::Filter(it, f) => (format!("{} ? {}", self.at(it, L_ITER), self.at(f, L_PREFIX)), L_ITER),
+            // `? type` is a postfix form of the tightest level
+            Expr::TypeFilter(it, t) => (format!("{} ? {}", self.at(it, L_POSTFIX), t.print()), L_POSTFIX),
+            Expr::Partition(it, f) => (format!("{} \\ {}", self.at(it, L_ITER), self.at(f, L_PREFIX)), L_ITER),
             Expr::Reduce(it, init, f) => {
-                // `it $ init f`: a parenthesised function literal right after the initial value
-                // would be read as a call of the initial value, so a literal goes bare
+                // `it $ init f`: the initial value is parsed as a whole expression, so it is kept
+                // primary; a parenthesised function literal right after it would be read as a
+                // call of the initial value, so a literal function goes bare
                 let fun = match &**f {
                     Expr::Lambda(ps, r, b) => self.function(ps, r, b),
-                    other => self.paren(other),
+                    other => self.at(other, L_PREFIX),
                 };
-                format!("({} $ {} {fun})", self.paren(it), self.paren(init))
+                (format!("{} $ {} {fun}", self.at(it, L_ITER), self.at(init, L_PRIMARY)), L_ITER)
             }
-            Expr::Post(op, it) => format!("({} {op})", self.paren(it)),
-            Expr::Len(x) => format!("std.len({})", self.expr(x)),
-            Expr::Tick(n, k, x) => format!("tk{n}({k}, {})", self.expr(x)),
-            Expr::Module(body) => format!("(mod {{ {} }})", self.stmts(body)),
-        }
-    }
-
-    /// operand of a postfix form: must be a primary, so compound operands get parentheses
-    fn postfix_operand(&self, e: &Expr) -> String {
-        match e {
-            Expr::Var(_) => self.expr(e),
-            _ => self.paren(e),
+            Expr::Post(op, it) => (format!("{} {op}", self.at(it, L_ITER)), L_ITER),
+            Expr::Len(x) => (format!("std.len({})", self.at(x, 0)), L_POSTFIX),
+            Expr::Tick(n, k, x) => (format!("tk{n}({k}, {})", self.at(x, 0)), L_POSTFIX),
+            Expr::Module(body) => (format!("mod {{ {} }}", self.stmts(body)), L_PRIMARY),
         }
     }
 
     fn paren(&self, e: &Expr) -> String {
-        let s = self.expr(e);
-        if s.starts_with('(') && matching_close(&s) == Some(s.len() - 1) { s } else { format!("({s})") }
+        self.at(e, L_PRIMARY)
     }
 
     fn list(&self, xs: &[Expr]) -> String {
-        xs.iter().map(|x| self.expr(x)).collect::<Vec<_>>().join(", ")
+        xs.iter().map(|x| self.at(x, 0)).collect::<Vec<_>>().join(", ")
     }
 
     pub fn function(&self, params: &[(String, Ty)], ret: &Ty, body: &[Stmt]) -> String {
